@@ -651,6 +651,44 @@ def check(pid, tier, seed, replay=None):
             log("VIOLATION property=%s replay=%s no-failing-input-found" % (pid, path))
             nviol = 1
             exit_code = 1
+        # ---- memory events of OTHER properties' harnesses (used by C08, whose claim is that no
+        # API history touches freed or foreign memory: every harness runs under ASan/UBSan/LSan,
+        # so a sanitizer report on any of their cases is a violation of this property too)
+        also = list(getattr(mod, "ALSO_MEMORY_QUICK" if tier == "quick" else "ALSO_MEMORY_THOROUGH", []))
+        if also and not replay:
+            extra = {}
+            for q in also:
+                qm = importlib.import_module("props." + q)
+                try:
+                    qexe, qtmp = build_harness(q, qm.HARNESS, getattr(qm, "SRCS", None), getattr(qm, "EXCLUDE", ()),
+                                               getattr(qm, "EXTRA_CFLAGS", ()), getattr(qm, "EXTRA_LD", ()))
+                except RuntimeError as e:
+                    problems.append(("build", "harness of %s does not build: %s" % (q, str(e)[-300:])))
+                    continue
+                try:
+                    qinfo = {}
+                    qcases = []
+                    for f in sorted(glob.glob(os.path.join(VERIF, "corpus", q, "*.case"))):
+                        qcases += [l.rstrip("\n") for l in open(f) if l.strip() and not l.startswith("#")]
+                    qcases += list(qm.gen("quick", seed, qinfo))
+                    qobs = run_sharded(qexe, list(getattr(qm, "HARNESS_ARGS", [])), qcases, env=ASAN_ENV,
+                                       per_case_timeout=getattr(qm, "CASE_TIMEOUT", 0.05))
+                    crashed = [(c, o) for c, o in zip(qcases, qobs) if o.startswith("CRASH ") and "San" in o]
+                    extra[q] = {"cases": len(qcases), "sanitizer_reports": len(crashed)}
+                    if crashed and exit_code == 0:
+                        path = write_replay(pid, seed, 1, {
+                            "property": pid, "kind": "memory-error", "found_by_harness_of": q,
+                            "case": crashed[0][0], "impl_observation": crashed[0][1],
+                            "also_failing": [c for c, _ in crashed[1:20]],
+                            "replay_with": "./check %s --replay <file with this case>" % q,
+                            "note": "a sanitizer reported a memory error while the harness of %s ran this case" % q})
+                        log("VIOLATION property=%s replay=%s" % (pid, path))
+                        nviol += len(crashed)
+                        exit_code = 1
+                finally:
+                    shutil.rmtree(qtmp, ignore_errors=True)
+            cov["memory_events_of_other_harnesses"] = extra
+            log("[%s] sanitizer sweep over other harnesses: %s" % (pid, extra))
         # fixed findings: must pass now (they are in the corpus, so any failure was reported above)
         ev["violations"] = nviol
     finally:
